@@ -8,7 +8,8 @@ VERIF = os.path.dirname(os.path.dirname(os.path.abspath(__file__)))
 COQ = os.path.join(VERIF, "coq")
 BUILD = os.path.join(VERIF, "build")
 DRIVER = os.path.join(BUILD, "driver")
-REPO = "/repo"
+REPO = os.environ.get("VERIF_REPO", "/repo")
+EVID = os.environ.get("VERIF_EVIDENCE_DIR", os.path.join(VERIF, "evidence"))
 
 # ---------------------------------------------------------------- exceptions
 E_VALUE, E_TOOSHORT, E_UNICODE, E_CRC, E_VERSION, E_TLV, E_VERIFPARAMS, E_OVERFLOW, E_FNF = 1, 2, 3, 4, 5, 6, 7, 8, 9
@@ -327,7 +328,7 @@ class Check:
         print("[%s] %s" % (self.pid, s), flush=True)
 
     def write_replay(self, payload):
-        d = os.path.join(VERIF, "evidence", "replay")
+        d = os.path.join(EVID, "replay")
         os.makedirs(d, exist_ok=True)
         h = hashlib.sha1(json.dumps(payload, sort_keys=True, default=str).encode()).hexdigest()[:12]
         p = os.path.join(d, "%s-%s.json" % (self.pid, h))
@@ -492,8 +493,8 @@ class Check:
                 "wall_s": round(time.time() - self.t0, 2),
                 "violations": len(out_v),
             }
-            os.makedirs(os.path.join(VERIF, "evidence"), exist_ok=True)
-            json.dump(ev, open(os.path.join(VERIF, "evidence", pid + ".json"), "w"), indent=1)
+            os.makedirs(EVID, exist_ok=True)
+            json.dump(ev, open(os.path.join(EVID, pid + ".json"), "w"), indent=1)
             self.log("done in %.1fs: %d evaluations, %d violations" % (time.time() - self.t0, n_eval, len(out_v)))
             return 1 if out_v else 0
         finally:
